@@ -283,18 +283,17 @@ func (s *Store[H]) DeleteRange(ctx context.Context, from, to uint64) error {
 	updateHead := to == head.Height()+1
 
 	// Attempt to delete (wipe) the entire store
+	wipe := false
 	if updateTail && updateHead {
 		// Only wipe if 'to' is exactly at head+1 (normal case) to avoid accidental wipes
 		// Check if a header exists exactly at 'to' (in pending, cache, or disk)
 		// If it exists, we can't wipe - there's a header that would become the new tail
 		_, err := s.getByHeight(ctx, to)
 		if errors.Is(err, header.ErrNotFound) {
-			// No header at 'to', safe to wipe the entire store
-			if err := s.wipe(ctx); err != nil {
-				return fmt.Errorf("header/store: wipe: %w", err)
-			}
-			log.Info("header/store: wiped store")
-			return nil
+			// No header at 'to', safe to wipe the entire store:
+			// delete the headers like any tail-side deletion and drop the pointers afterwards
+			wipe = true
+			err = nil
 		}
 		if err != nil {
 			return fmt.Errorf("header/store: checking header at %d: %w", to, err)
@@ -334,6 +333,13 @@ func (s *Store[H]) DeleteRange(ctx context.Context, from, to uint64) error {
 
 	// Delete the headers without automatic tail updates
 	actualTo, _, deleteErr := s.deleteRangeRaw(ctx, from, to)
+	if wipe && deleteErr == nil {
+		if err := s.wipe(ctx); err != nil {
+			return fmt.Errorf("header/store: wipe: %w", err)
+		}
+		log.Info("header/store: wiped store")
+		return nil
+	}
 
 	// Always update pointers to reflect actual progress, even on partial delete.
 	// This ensures store consistency and allows retries to continue from where we left off.
